@@ -48,7 +48,7 @@ def rule_write_under_lock(ctx, rule):
             for it in enclosing_with_items(c, pm):
                 ce = it.context_expr
                 if (isinstance(ce, ast.Call) and (dotted(ce.func) or "").endswith("get_lock_file")
-                        and ce.args and norm(ce.args[0]) == "self._lock"):
+                        and ce.args and norm(resolve(ce.args[0], single_defs(f.node))) == "self._lock"):
                     held = True
             ctx.check(held, rule, f.short, "write-under-file-lock:" + ("write" if is_write else "open"),
                       message=f"{cls.name}.{mname}: `{norm(c)[:60]}` touches the journal file for "
